@@ -277,6 +277,7 @@ HAND_TEXTS = [
     '\t\n\r {"a" : [ ] , "b" : { } }\n', '[1]\u00a0', '\u00a0[1]', '\ufeff[1]', '"abc', '"\\q"', '"\\/"', '"\\', '"\\"', '"a\\\\"', '1e999',
     '-1e999', '1e-999', '123456789012345678901234567890', '-123456789012345678901234567890.5', '', ' ', '[', ']', '{', '}', '[[]]', '[{}]',
     '{"":{}}', '[[[[[[1]]]]]]', '"a" "b"', '1 2', '1,', '[1],', '{"a":}', '{"a"}', '{"a":1}}', '[1]]', '"\\b\\f\\n\\r\\t\\"\\\\"', '+1', '0x10',
+    '[[n', '[[[[', '[[[[1', '[[[[1]]]', '[[[[[[[[[[', '{"a":{"a":{"a":', '{"a":{"a":{"a":n', '[{"a":[{"a":[', '[[[["', '[ [ [ [ n',
     '1_0', '1.e5', '0e0', '0E-0', '-0e+00', '00', '-01', '0.', '[0.]', '[1.0,2.50,3.00e1]', "'a'", '[\'a\']', 'None', 'True',
 ]
 MUT_CHARS = list('[]{}",:\\.0123456789eE+- \t\n\r/ubfnrtalsxN')
@@ -349,7 +350,7 @@ def build_cases(tier, r):
         cases.append(([x, x], None, 'numbers'))
         cases.append(({'n': x, 'm': [x]}, 2, 'numbers'))
     # structured random, depth <= 5
-    n_rand = 2500 if tier == 'quick' else 60000
+    n_rand = 2500 if tier == 'quick' else 40000
     for _ in range(n_rand):
         v = gen_value(r, r.choice([1, 2, 3, 4, 5, 5]))
         cases.append((v, r.choice([None, None, 1, 2, 3, 4, 5, 6, 7, 8]), 'random'))
@@ -431,9 +432,9 @@ def run(tier):
     # ---- correspondence inside Coq
     corr_n = 0
     if model_ok:
-        budget = {'corpus': 10**9, 'exh-value': 500, 'exh-key': 400, 'exh-array': 300, 'exh-escape': 400, 'numbers': 10**9, 'random': 900}
+        budget = {'corpus': 10**9, 'exh-value': 250, 'exh-key': 200, 'exh-array': 150, 'exh-escape': 200, 'numbers': 250, 'random': 500}
         if tier == 'thorough':
-            budget = {k: v * 8 for k, v in budget.items()}
+            budget = {k: v * 5 for k, v in budget.items()}
         by_tag = {}
         for i, c in enumerate(cases):
             by_tag.setdefault(c[2], []).append(i)
@@ -458,10 +459,13 @@ def run(tier):
         # malformed stream for the reader
         seeds = [impl[i]['text'] for i in pick if isinstance(impl[i].get('text'), str) and len(impl[i]['text']) <= 120]
         mal = list(HAND_TEXTS)
-        n_mal = 1200 if tier == 'quick' else 12000
+        n_mal = 700 if tier == 'quick' else 6000
         for _ in range(n_mal):
             mal.append(mutate(r, r.choice(seeds) if r.random() < 0.7 else r.choice(HAND_TEXTS)))
-        mal = [t for t in mal if 'NaN' not in t and 'Infinity' not in t and not re.search(r'[\ud800-\udfff]', t)]
+        # outside the modelled reader: CPython's NaN/Infinity constants, surrogate code points, and exponents of more than
+        # 3 digits (Model/Num.v computes 10^|e| exactly; CPython answers inf/0.0 at once)
+        mal = [t for t in mal if 'NaN' not in t and 'Infinity' not in t and not re.search(r'[\ud800-\udfff]', t)
+               and not re.search(r'[eE][+-]?\d{4,}', t)]
         mres = core.run_impl('json_rt', [{'parse': t} for t in mal])
         n_acc = 0
         for t, res in zip(mal, mres):
@@ -477,13 +481,13 @@ def run(tier):
         dist['malformed'] = len(mal)
         dist['malformed_accepted'] = n_acc
         # scanner == regenerated regex on character soup
-        n_soup = 400 if tier == 'quick' else 4000
+        n_soup = 250 if tier == 'quick' else 2000
         for _ in range(n_soup):
             s = soup(r)
             terms.append(f'cleanup_agree {cstr(s)}')
             meta.append(('soup', s))
         dist['soup'] = n_soup
-        bad, errors = core.coq_bools('c14', 'Model.Base Model.Num Model.Json Model.JsonRe', terms, shard=150)
+        bad, errors = core.coq_bools('c14', 'Model.Base Model.Num Model.Json Model.JsonRe', terms, shard=(200 if tier == 'quick' else 400))
         corr_n = len(terms)
         for k, log in errors:
             chk.corr_fail.append({'class': 'case-file-did-not-evaluate', 'shard': k, 'log': log[-800:]})
